@@ -208,6 +208,55 @@ pub fn generate(tier: Tier, rng: &mut Rng) -> Vec<Case> {
                 }
             }
         }
+        // macros and functions over maps whose keys are of mutually incomparable kinds (anything
+        // that sorts or compares keys is one `expect` away); predicate only: results depend on the
+        // unspecified iteration order
+        for m in ["{1: 'a', 'b': 2}", "{true: 1, 0: 2}", "{1u: 1, 'x': 2, false: 3}", "{1: 1, 2u: 2, 'k': 3, true: 4}", "{'': 0, 0: ''}", "{1: 1, 1u: 2}"] {
+            for body in ["map(k, k)", "filter(k, k != 1)", "all(k, k != 'zz')", "exists(k, k == 0)", "exists_one(k, k == true)", "map(k, k != 1, [k])"] {
+                for src in [format!("{m}.{body}"), format!("[{m}].map(x, x.{body})"), format!("size({m}) > 0 && {m}.{body} != null")] {
+                    if let Some(mut c) = eval_case_from_src(&spec, &src) {
+                        c.tags = vec!["special", "mixed-key-map", "no-model"];
+                        out.push(c);
+                    }
+                }
+            }
+            for src in [format!("{m} == {m}"), format!("max({m}, {m})"), format!("string({m})"), format!("[{m}, {m}].min()"), format!("{m} in [{m}]"), format!("1 in {m}"), format!("'b' in {m}"), format!("{m}[1]"), format!("{m}.contains(true)")] {
+                if let Some(mut c) = eval_case_from_src(&spec, &src) {
+                    c.tags = vec!["special", "mixed-key-map", "no-model"];
+                    out.push(c);
+                }
+            }
+        }
+        // contains / startsWith / endsWith / in over every pair of short strings and byte strings
+        // (a search that reads past the end needs a needle that starts near the end)
+        let mut words: Vec<String> = vec![String::new()];
+        for len in 1..=3usize {
+            for n in 0..(3usize.pow(len as u32)) {
+                let mut w = String::new();
+                let mut k = n;
+                for _ in 0..len {
+                    w.push(['a', 'b', 'c'][k % 3]);
+                    k /= 3;
+                }
+                words.push(w);
+            }
+        }
+        words.push("abcd".into());
+        words.push("é".into());
+        words.push("aé".into());
+        for a in &words {
+            for b in &words {
+                if a.len() + b.len() > 5 && rng.below(3) != 0 {
+                    continue;
+                }
+                for src in [format!("b'{a}'.contains(b'{b}')"), format!("'{a}'.contains('{b}')"), format!("'{a}'.startsWith('{b}')"), format!("'{a}'.endsWith('{b}')"), format!("'{b}' in '{a}'"), format!("contains(b'{a}', b'{b}')")] {
+                    if let Some(mut c) = eval_case_from_src(&spec, &src) {
+                        c.tags = vec!["special", "substring-pairs"];
+                        out.push(c);
+                    }
+                }
+            }
+        }
         // every list length around every index, int and uint (an off-by-one at the end of the range)
         for len in 0..=4usize {
             let lit = format!("[{}]", (0..len).map(|i| (i + 7).to_string()).collect::<Vec<_>>().join(", "));
